@@ -31,13 +31,15 @@ def jobs(tier):
                        require=[r"Check ensures clause of contract contract::_vnacal_layout"],
                        bound="all 9 error-term types, m_rows, m_columns in 1..%d (products of symbolic dimensions)" % dmax,
                        cbmc_flags=["--no-leak"], timeout=(200 if tier == "quick" else 1800)))
-    for fn, typ, full in (("fill_t8", "VNACAL_T8", 0), ("fill_t8", "VNACAL_TE10", 0), ("fill_t16", "VNACAL_T16", 1)):
+    for fn, typ, full, form in (("fill_t8", "VNACAL_T8", 0, 0), ("fill_t8", "VNACAL_TE10", 0, 0), ("fill_t16", "VNACAL_T16", 1, 1),
+                                ("fill_u8", "VNACAL_U8", 0, 2), ("fill_u8", "VNACAL_UE10", 0, 2), ("fill_u16", "VNACAL_U16", 1, 3),
+                                ("fill_ue14", "VNACAL_UE14", 0, 4)):
         inc, sha = extract(fn)
         SHAS[fn] = sha
         for n in (((2, 3) if not full else (2,)) if tier == "quick" else ((2, 3, 4) if not full else (2, 3))):
             J.append(V.Job("%s.%s.n%d" % (fn, typ, n), "vnacal/c01_fill.c", "h_fill_t", ["vnacal_layout.c"],
                            defines=["-DFILL_INC=\"%s\"" % inc, "-DFILL_FN=%s" % fn, "-DFILL_TYPE=%s" % typ,
-                                    "-DFILL_FULL=%d" % full, "-DN=%d" % n],
+                                    "-DFILL_FULL=%d" % full, "-DFILL_FORM=%d" % form, "-DN=%d" % n],
                            unwind=n + 2, shim=False, kind="bounded", canary=(n == 2),
                            functions=["%s (extracted text, ring Z/256)" % fn],
                            bound="%s, %dx%d, every error term and measurement symbolic in Z/256, symbolic cell" % (typ, n, n),
